@@ -285,6 +285,13 @@ func Main(prop string, rule string, plan Plan, casesQuick int, corpus [][]string
 			x.GenCase(rng, sub, "type cat "+name, p)
 		}
 	}
+	// SerializableOrderedMap instantiations built by Set/Delete/Clear histories
+	for round := 0; round < 40*r.Scale; round++ {
+		for _, name := range SomNames() {
+			rng, sub := r.Rng.Fork()
+			x.GenSomCase(rng, sub, name)
+		}
+	}
 	n := casesQuick * r.Scale
 	for i := 0; i < n; i++ {
 		rng, sub := r.Rng.Fork()
